@@ -410,6 +410,7 @@ class longrightarrow(MathSymbol): pass
 class Longrightarrow(MathSymbol): pass
 class longleftrightarrow(MathSymbol): pass
 class Longleftrightarrow(MathSymbol): pass
+class iff(MathSymbol): str = chr(10234)
 class longmapsto(MathSymbol): pass
 class hookrightarrow(MathSymbol): str = chr(8618)
 class rightharpoonup(MathSymbol): str = chr(8640)
